@@ -500,7 +500,7 @@ fn c11(r: &Runner) {
                 }
                 // operands must also fit the Uint width
                 ops.retain(|o| o[n - 1] & !mask(bits) == 0);
-                let cap = if r.is_thorough() { 400 } else if n > 8 { 70 } else { 130 };
+                let cap = if r.is_thorough() { 700 } else if n > 8 { 70 } else { 130 };
                 if ops.len() > cap {
                     // keep the named candidates and an evenly spread remainder is NOT used: instead drop to the plain run shapes
                     ops = operands(m, false);
@@ -1103,9 +1103,9 @@ fn c14(r: &Runner) {
 
 fn c15(r: &Runner) {
     use k::Op as K;
-    r.set_rule("addmul: accumulator, a, b of independent lengths 0..=10: the full product of A3^len contents for lengths <= 3 (4 thorough) each, run shapes for longer slices; addmul_n for n = 0..=6; word primitives on B64^2 x carry; n x 1 kernels on slices of length 0..=10 x scalars from B64; shifts by EVERY amount 0..=63; cmp on all equal-length pairs; the same kernels on run-shaped slices of 24 lengths in 11..=66, cmp there on every pair of differing positions. non-trivial = a carry / borrow / overflow leaves the slice, or the accumulator is shorter than the product");
+    r.set_rule("addmul: accumulator, a, b of independent lengths 0..=10: the full product of A3^len contents for lengths <= 3 (5 thorough) each, run shapes for longer slices; addmul_n for n = 0..=6; word primitives on B64^2 x carry; n x 1 kernels on slices of length 0..=10 x scalars from B64; shifts by EVERY amount 0..=63; cmp on all equal-length pairs; the same kernels on run-shaped slices of 24 lengths in 11..=66, cmp there on every pair of differing positions. non-trivial = a carry / borrow / overflow leaves the slice, or the accumulator is shorter than the product");
     let al3: &[u64] = &[0, 1, u64::MAX];
-    let short = if r.is_thorough() { 4 } else { 3 };
+    let short = if r.is_thorough() { 5 } else { 3 };
     // slices by length: full product for short, run shapes for long
     let ys: &[u64] = if r.is_thorough() { &[0, 1, 1 << 63, u64::MAX - 1, u64::MAX] } else { &[0, 1, u64::MAX] };
     let by_len: Vec<Vec<Limbs>> = (0..=10)
